@@ -1,33 +1,9 @@
-/- Invariant of the C18 model `Sm` (SharedMutex / SharedTimedMutex): what does hold for the code as it is. -/
+/- Invariant of the C18 model `Sm` (SharedMutex / SharedTimedMutex). -/
 import YaclibModel.Model.FiberSyncShared
 import YaclibModel.Proofs.FiberSync
 
 namespace Yaclib.FiberSync.Sm
 open Yaclib.FiberSync
-
-/-- no D5/D6 path has been taken so far -/
-def Clean (s : State) : Prop := s.d5 = 0 ∧ s.d6 = 0
-
-structure Inv (k : Bool) (s : State) : Prop where
-  hk : s.timed = k
-  hfx : s.fixed = false
-  /-- `_shared_owners_count` never underflows: every shared holder is counted -/
-  sh_cnt : s.sh.length ≤ s.cnt
-  /-- as long as no D5/D6 path was taken the flags describe the holders exactly: free / one writer / readers -/
-  modes : Clean s →
-    (s.occ = false ∧ s.xh = [] ∧ s.sh = [] ∧ s.cnt = 0) ∨
-    (s.occ = true ∧ s.excl = true ∧ s.xh.length = 1 ∧ s.sh = [] ∧ s.cnt = 0) ∨
-    (s.occ = true ∧ s.excl = false ∧ s.xh = [] ∧ s.sh.length = s.cnt ∧ 0 < s.cnt)
-  dl_tx : ∀ g r d, s.pc g = .txParked r d → r ≤ d
-  dl_ts : ∀ g r d, s.pc g = .tsParked r d → r ≤ d
-
-theorem inv_init (k : Bool) (n : Nat) : Inv k (init k false n) := by
-  constructor <;> (simp only [init, Clean]) <;> grind
-
-theorem wake_ne_txParked (b : Bool) (p : Pc) (r d : Nat) (h : wake b p = .txParked r d) : p = .txParked r d ∧ False := by
-  cases p <;> cases b <;> simp_all [wake]
-theorem wake_ne_tsParked (b : Bool) (p : Pc) (r d : Nat) (h : wake b p = .tsParked r d) : p = .tsParked r d ∧ False := by
-  cases p <;> cases b <;> simp_all [wake]
 
 theorem length_one_erase {l : List Fid} {f : Fid} (h : f ∈ l) (h1 : l.length = 1) : l.erase f = [] := by
   have := Mx.length_erase_mem h
@@ -35,18 +11,64 @@ theorem length_one_erase {l : List Fid} {f : Fid} (h : f ∈ l) (h1 : l.length =
 
 theorem length_zero_nil {l : List Fid} (h : l.length = 0) : l = [] := List.length_eq_zero_iff.mp h
 
+structure Inv (k : Bool) (s : State) : Prop where
+  hk : s.timed = k
+  /-- the flags describe the holders exactly: free / one writer / readers -/
+  modes :
+    (s.occ = false ∧ s.xh = [] ∧ s.sh = [] ∧ s.cnt = 0) ∨
+    (s.occ = true ∧ s.excl = true ∧ s.xh.length = 1 ∧ s.sh = [] ∧ s.cnt = 0) ∨
+    (s.occ = true ∧ s.excl = false ∧ s.xh = [] ∧ s.sh.length = s.cnt ∧ 0 < s.cnt)
+  /-- notified writers re-evaluate their condition next -/
+  transit_pc : ∀ g, g ∈ s.transit → (s.pc g).recheckX = true
+  /-- no lost wake-up for writers: a free lock with parked writers has a notified writer on its way -/
+  free_transit : s.occ = false → s.eq ≠ [] → s.transit ≠ []
+  /-- readers are parked only while a writer holds the lock -/
+  sq_held : s.sq ≠ [] → s.occ = true ∧ s.excl = true
+  eq_pc : ∀ g, g ∈ s.eq → (s.pc g).onE = true
+  pc_eq : ∀ g, (s.pc g).onE = true → g ∈ s.eq
+  sq_pc : ∀ g, g ∈ s.sq → (s.pc g).onS = true
+  pc_sq : ∀ g, (s.pc g).onS = true → g ∈ s.sq
+  dl_tx : ∀ g r d, s.pc g = .txParked r d → r ≤ d
+  dl_ts : ∀ g r d, s.pc g = .tsParked r d → r ≤ d
+  tx_timed : ∀ g r d, s.pc g = .txParked r d → s.timed = true
+  ts_timed : ∀ g r d, s.pc g = .tsParked r d → s.timed = true
+  txl_timed : ∀ g r, s.pc g = .txLocking r → s.timed = true
+  tsl_timed : ∀ g r, s.pc g = .tsLocking r → s.timed = true
+
+theorem inv_init (k : Bool) (n : Nat) : Inv k (init k n) := by
+  constructor <;> (simp only [init]) <;> grind [Pc.recheckX, Pc.onE, Pc.onS]
+
+theorem wake_onE {p : Pc} (h : p.onE = true) : (wake p).recheckX = true ∧ (wake p).onE = false ∧
+    (wake p).onS = false := by
+  cases p <;> simp_all [Pc.onE, wake, Pc.recheckX, Pc.onS]
+theorem wake_onS {p : Pc} (h : p.onS = true) : (wake p).recheckS = true ∧ (wake p).onE = false ∧
+    (wake p).onS = false ∧ (wake p).recheckX = false := by
+  cases p <;> simp_all [Pc.onE, wake, Pc.recheckS, Pc.onS, Pc.recheckX]
+theorem wake_parked {p : Pc} (r d : Nat) : wake p ≠ .txParked r d ∧ wake p ≠ .tsParked r d := by
+  cases p <;> simp [wake]
+theorem wake_txLocking {p : Pc} {r : Nat} (h : wake p = .txLocking r) : (∃ d, p = .txParked r d) ∨ p = .txLocking r := by
+  cases p <;> simp_all [wake]
+theorem wake_tsLocking {p : Pc} {r : Nat} (h : wake p = .tsLocking r) : (∃ d, p = .tsParked r d) ∨ p = .tsLocking r := by
+  cases p <;> simp_all [wake]
+theorem onE_facts {p : Pc} (h : p.onE = true) : p.onS = false ∧ p.recheckX = false := by
+  cases p <;> simp_all [Pc.onE, Pc.onS, Pc.recheckX]
+theorem onS_facts {p : Pc} (h : p.onS = true) : p.onE = false ∧ p.recheckX = false := by
+  cases p <;> simp_all [Pc.onE, Pc.onS, Pc.recheckX]
+
 macro "sm_auto" : tactic =>
-  `(tactic| (constructor <;> (try simp only [lockHelper, sharedHelper, sharedHelperX, bumpX, bumpS, notifyE, notifyAllS, doUnlock,
-      doUnlockS, doUnlockF, parkE, parkS, XHeld, Clean, UnlockPick, UnlockSPick, PickOk] at *) <;>
-      grind [upd_apply, mem_rm, Mx.length_erase_mem, length_one_erase, length_zero_nil, List.length_append,
-        wake_ne_txParked, wake_ne_tsParked]))
+  `(tactic| (constructor <;> (try simp only [lockHelper, sharedHelper, notifyE, notifyAllS, doUnlock,
+      doUnlockS, parkE, parkS, XHeld, UnlockSPick, PickOk] at *) <;>
+      grind [upd_apply, mem_rm, rm_ne_nil, Mx.length_erase_mem, length_one_erase, length_zero_nil, List.length_append,
+        wake_onE, wake_onS, wake_parked, wake_txLocking, wake_tsLocking, onE_facts, onS_facts,
+        Pc.recheckX, Pc.onE, Pc.onS]))
 
 def grpOf : Label → Nat
-  | .xAcq _ => 0 | .xPark _ => 0 | .tryX _ _ => 0 | .sAcq _ => 0 | .sPark _ => 0 | .tryS _ _ => 0
-  | .unlock _ _ _ => 1
-  | .unlockS _ _ => 2
-  | .txAcq _ => 3 | .txPark _ _ _ _ => 3 | .txTimeout _ _ => 3 | .tsAcq _ => 3 | .tsPark _ _ _ _ => 3
-  | .tsTimeout _ _ => 3 | .sleepStart _ _ _ => 3 | .sleepWake _ _ => 3 | .finish _ => 3
-  | .txRepark _ _ => 3 | .tsRepark _ _ => 3
+  | .xAcq _ => 0 | .xPark _ => 0 | .tryX _ _ => 0
+  | .sAcq _ => 1 | .sPark _ => 1 | .tryS _ _ => 1
+  | .unlock _ _ => 2
+  | .unlockS _ _ => 3
+  | .txAcq _ => 4 | .txPark _ _ _ _ => 4 | .txTimeout _ _ => 4 | .txRepark _ _ => 4
+  | .tsAcq _ => 5 | .tsPark _ _ _ _ => 5 | .tsTimeout _ _ => 5 | .tsRepark _ _ => 5
+  | .sleepStart _ _ _ => 5 | .sleepWake _ _ => 5 | .finish _ => 5
 
 end Yaclib.FiberSync.Sm
